@@ -8,6 +8,7 @@ import (
 	"strings"
 
 	"engcheck/core"
+	"golang.org/x/tools/go/types/typeutil"
 )
 
 func init() {
@@ -318,6 +319,65 @@ func c16Gate(c *core.Ctx) {
 					return 0
 				})
 			}
+		}
+		// the same decision made by a novel private helper (extract-function): Compress: helper(packets), where the helper
+		// returns true exactly on the Options.Compress edge of a packet and false otherwise
+		if !okInit && !okSet {
+			wants := func(x *core.Unit, br core.Branch) int {
+				if se, isS := ast.Unparen(br.Cond).(*ast.SelectorExpr); isS && se.Sel.Name == "Compress" {
+					if inner, isI := ast.Unparen(se.X).(*ast.SelectorExpr); isI && inner.Sel.Name == "Options" {
+						return 1
+					}
+				}
+				return 0
+			}
+			ast.Inspect(sd.Body, func(n ast.Node) bool {
+				kv, isKV := n.(*ast.KeyValueExpr)
+				if !isKV {
+					return true
+				}
+				if k, _ := kv.Key.(*ast.Ident); k == nil || k.Name != "Compress" {
+					return true
+				}
+				ce, isC := ast.Unparen(kv.Value).(*ast.CallExpr)
+				if !isC {
+					return true
+				}
+				f, _ := typeutil.Callee(info, ce).(*types.Func)
+				if f == nil || !core.IsNovel(f) {
+					return true
+				}
+				h := c.P.UnitOf(f)
+				if h == nil {
+					return true
+				}
+				c.Touch(h)
+				hg := h.Graph()
+				nT, nF := 0, 0
+				good := true
+				for _, r := range returnsIn(h) {
+					if len(r.Stmt.Results) != 1 {
+						good = false
+						continue
+					}
+					v, isB := core.ConstBool(h.Info(), r.Stmt.Results[0])
+					if !isB {
+						good = false
+						continue
+					}
+					if v {
+						nT++
+						good = good && hg.GuardedBy(r.Loc, wants)
+					} else {
+						nF++
+						good = good && !hg.GuardedBy(r.Loc, wants)
+					}
+				}
+				if good && nT >= 1 && nF >= 1 {
+					okInit, okSet = true, true
+				}
+				return true
+			})
 		}
 		c.Check(R, "transports.(*polling).send/Compress-iff-some-packet-asks", sd.Pos(), okInit && okSet, "default false, true when a packet of the batch has Options.Compress")
 	}
